@@ -43,11 +43,13 @@ Act(e) ==
     [] e.op = "writenotes" -> WriteNotes(e.j, e.notes, e.cols)
     [] e.op = "countnotes" -> CountNotes(e.j, e.res)
     [] e.op = "readtiming" -> ReadTiming(e.name, e.res)
+    [] e.op = "timenotes" -> TimeNotes(e.j, e.opt, e.res)
 
 (* a save of an object outside the serializer's domain (escaping gaps, chart without notes) is skipped, not judged *)
 OutOfDomain(e) == \/ e.op = "save" /\ ~Saveable(obj)
                   \/ e.op = "tosm" /\ ~ToSMInDomain(obj, e.tmpl, e.ctmpl, e.beh)
                   \/ e.op = "countnotes" /\ ~CountInDomain(obj, e.j)
+                  \/ e.op = "timenotes" /\ ~TimeNotesInDomain(obj, e.j)
 
 Consume == /\ tid <= NS /\ l <= Len(Evs) /\ ~OutOfDomain(Ev)
            /\ Act(Ev)
